@@ -155,6 +155,7 @@ pub fn main(args: &Args) -> i32 {
     let mut count = 0usize;
     let mut events = 0usize;
     let mut distinct: HashSet<u64> = HashSet::new();
+    let mut distinct_fine: HashSet<u64> = HashSet::new();
     let mut anomalies: Vec<String> = Vec::new();
     let mut exhausted = false;
     let replay_codes: Option<Vec<String>> = args
@@ -191,20 +192,25 @@ pub fn main(args: &Args) -> i32 {
         let (fine, abs) = normalise(&res, &locs, init_ptr);
         let codes: Vec<String> = res.schedule.iter().map(|c| c.code()).collect();
         let reset = Obj::new("reset").int("t", 0).int("d", 0).int("n", count as i64).done();
-        writeln!(fine_w, "{}", reset).unwrap();
-        writeln!(abs_w, "{}", reset).unwrap();
-        for l in &fine {
-            writeln!(fine_w, "{}", l).unwrap();
+        use std::hash::{Hash, Hasher};
+        let mut h = std::collections::hash_map::DefaultHasher::new();
+        fine.hash(&mut h);
+        if distinct_fine.insert(h.finish()) {
+            writeln!(fine_w, "{}", reset).unwrap();
+            for l in &fine {
+                writeln!(fine_w, "{}", l).unwrap();
+            }
         }
-        for l in &abs {
-            writeln!(abs_w, "{}", l).unwrap();
+        let mut h = std::collections::hash_map::DefaultHasher::new();
+        abs.hash(&mut h);
+        if distinct.insert(h.finish()) {
+            writeln!(abs_w, "{}", reset).unwrap();
+            for l in &abs {
+                writeln!(abs_w, "{}", l).unwrap();
+            }
         }
         writeln!(sched_w, "{}", codes.join(" ")).unwrap();
         events += fine.len();
-        let mut h = std::collections::hash_map::DefaultHasher::new();
-        use std::hash::{Hash, Hasher};
-        abs.hash(&mut h);
-        distinct.insert(h.finish());
         if res.outcome != Outcome::Done || !res.panics.is_empty() {
             if anomalies.len() < 5 {
                 anomalies.push(format!(
@@ -236,10 +242,11 @@ pub fn main(args: &Args) -> i32 {
     abs_w.flush().unwrap();
     sched_w.flush().unwrap();
     println!(
-        "{{\"schedules\":{},\"events\":{},\"distinct_abs_traces\":{},\"exhausted\":{},\"nondeterminism\":{},\"anomalies\":[{}]}}",
+        "{{\"schedules\":{},\"events\":{},\"distinct_abs_traces\":{},\"distinct_fine_traces\":{},\"exhausted\":{},\"nondeterminism\":{},\"anomalies\":[{}]}}",
         count,
         events,
         distinct.len(),
+        distinct_fine.len(),
         exhausted,
         dfs.nondeterminism,
         anomalies.join(",")
